@@ -21,22 +21,48 @@ pub struct TreeRun {
     pub opts: BatOpts,
 }
 
+pub const N_PATHS: u8 = 6;
+
 pub fn path_name(p: u8) -> &'static str {
-    match p % 3 {
+    match p % N_PATHS {
         0 => "new",
         1 => "from_vec",
-        _ => "collect",
+        2 => "collect",
+        3 => "from_vec(spare capacity >= 2*len)",
+        4 => "from_vec(truncated longer vector)",
+        _ => "new(on the front of a longer slice)",
     }
 }
 
+/// the three constructors, plus the same constructors fed containers in other states a caller can hand over:
+/// a `Vec` with spare capacity, a `Vec` that was longer and has been truncated, a sub-slice of a longer buffer
 pub fn build_tree<Tr: TreeApi>(data: &[Tr::Item], path: u8) -> Tr {
-    match path % 3 {
+    match path % N_PATHS {
         0 => {
             let mut v = data.to_vec();
             Tr::b_new(&mut v)
         }
         1 => Tr::b_from(data.to_vec()),
-        _ => Tr::b_collect(data.to_vec()),
+        2 => Tr::b_collect(data.to_vec()),
+        3 => {
+            let mut v: Vec<Tr::Item> = Vec::with_capacity(2 * data.len() + 9);
+            v.extend_from_slice(data);
+            Tr::b_from(v)
+        }
+        4 => {
+            let mut v: Vec<Tr::Item> = Vec::with_capacity(data.len() + data.len() / 2 + 3);
+            v.extend_from_slice(data);
+            // stale elements beyond the logical end
+            v.extend(data.iter().rev().take(data.len() / 2 + 3).copied());
+            v.truncate(data.len());
+            Tr::b_from(v)
+        }
+        _ => {
+            let mut v = data.to_vec();
+            v.extend(data.iter().rev().take(17).copied());
+            let n = data.len();
+            Tr::b_new(&mut v[..n])
+        }
     }
 }
 
@@ -227,7 +253,7 @@ pub fn plain_cases(cfg: &Cfg, aliases: &[&'static str], opts: &BatOpts) -> Vec<C
         let specs = thin(plain_tree_specs(cfg.scale, cfg.tier, bits, cfg.seed), cfg.scale, cfg.tier, pi);
         for (j, spec) in specs.into_iter().enumerate() {
             let w = weight(&spec, bits, opts.budget, 1);
-            let r = TreeRun { spec, path: ((j + pi) % 3) as u8, ties: vec![None], opts: opts.clone() };
+            let r = TreeRun { spec, path: ((j + pi) % N_PATHS as usize) as u8, ties: vec![None], opts: opts.clone() };
             out.push(tree_case(alias, tname, r, w));
         }
     }
@@ -257,7 +283,7 @@ pub fn huff_cases(cfg: &Cfg, aliases: &[&'static str], arity: usize, opts: &BatO
                 ties = vec![Some(rng.u64())];
             }
             let w = weight(&spec, 16, opts.budget, ties.len());
-            let r = TreeRun { spec, path: ((j + pi) % 3) as u8, ties, opts: opts.clone() };
+            let r = TreeRun { spec, path: ((j + pi) % N_PATHS as usize) as u8, ties, opts: opts.clone() };
             out.push(tree_case(alias, tname, r, w));
         }
     }
